@@ -160,7 +160,8 @@ static bool objects_equal(int kind, const Objects& a, const Objects& b) {
     case WPARAMS: {
         if (a.wp.l != b.wp.l || a.wp.signatures != b.wp.signatures) return false;
         if (!g2eq(a.wp.g, b.wp.g) || !g2eq(a.wp.g1, b.wp.g1) || !g1eq(a.wp.g2, b.wp.g2) || !g1eq(a.wp.g3, b.wp.g3) || !gteq(a.wp.pairing, b.wp.pairing)) return false;
-        if (a.wp.signatures && !g1eq(a.wp.hsig, b.wp.hsig)) return false;
+        // without signature support hsig is the identity (setup writes it, sign and verify multiply it by the message): an equal object has it too
+        if (!g1eq(a.wp.hsig, b.wp.hsig)) return false;
         for (int i = 0; i < a.wp.l; i++) if (!g1eq(a.wp.h[i], b.wp.h[i])) return false;
         return true;
     }
@@ -168,7 +169,7 @@ static bool objects_equal(int kind, const Objects& a, const Objects& b) {
     case WSK: {
         if (a.wsk.l != b.wsk.l || a.wsk.signatures != b.wsk.signatures) return false;
         if (!g1eq(a.wsk.a0, b.wsk.a0) || !g2eq(a.wsk.a1, b.wsk.a1)) return false;
-        if (a.wsk.signatures && !g1eq(a.wsk.bsig, b.wsk.bsig)) return false;
+        if (!g1eq(a.wsk.bsig, b.wsk.bsig)) return false;       // likewise bsig: the identity without signature support, and sign uses it
         for (int i = 0; i < a.wsk.l; i++) if (a.wsk.b[i].idx != b.wsk.b[i].idx || !g1eq(a.wsk.b[i].hexp, b.wsk.b[i].hexp)) return false;
         return true;
     }
@@ -280,6 +281,7 @@ void hash_rec(void* out, size_t outlen, const void* in, size_t inlen) {
 }
 
 // ------------------------------------------------------------------ commands
+struct Objects; static void dirty_objects(Objects& o);
 static void cmd_gen(void) {
     int l = (int) argi(1); bool sig = argi(2) != 0; unsigned long mask = strtoul(arg(3), NULL, 10);
     rng_seed(strtoull(arg(4), NULL, 10));
@@ -297,14 +299,14 @@ static void cmd_gen(void) {
             do_marshal(kind, o, b1.p, c != 0); do_marshal(kind, o, b2.p, c != 0);
             bool allwritten = memcmp(b1.p, b2.p, len) == 0;
             // round trip through the binding protocol into fresh objects
-            Objects r; memset(&r, 0, sizeof r);
+            Objects r; memset(&r, 0, sizeof r); dirty_objects(r);
             int sl = 0, sl2 = 0;
             int okc = do_unmarshal(kind, r, b1.p, len, c != 0, true, &sl);
             bool eqc = okc == 1 && objects_equal(kind, o, r);
             size_t relen = okc == 1 ? get_len(kind, r, c != 0) : 0;
             bool resame = false;
             if (okc == 1 && relen == len) { Buf b3 = buf_alloc(len); do_marshal(kind, r, b3.p, c != 0); resame = memcmp(b3.p, b1.p, len) == 0; buf_free(b3); }
-            Objects u; memset(&u, 0, sizeof u);
+            Objects u; memset(&u, 0, sizeof u); dirty_objects(u);
             int oku = do_unmarshal(kind, u, b1.p, len, c != 0, false, &sl2);
             bool equ = oku == 1 && objects_equal(kind, o, u);
             int slots = kind == WPARAMS ? o.wp.l : (kind == WSK ? o.wsk.l : -3);
